@@ -153,6 +153,23 @@ CHECKS: dict[str, tuple[str, str, str, str, str]] = {
         "+ TLC validation of the re-synthesised slice text against the CPython slice semantics "
         "in PtCore",
         "DESIGN.md section 4 C14"),
+    "C15": (
+        "model_checking",
+        "spec/PtNames.tla and PtNamesDW.tla enumerate ~67k adversarial namings of program "
+        "templates (user names from {x, y, out, x_dim0, out_dim0, _pt_temp, acc_x, x_0} and "
+        "from the reserved region on two inputs, two output keys, an optional Named tag, and "
+        "unnamed / Named / PrefixNamed wrapped data) together with the verdict the property "
+        "demands (reject / either / accept); a stratified sample is replayed through the real "
+        "generate_loopy, the kernel is executed, and the harness exports every identifier with "
+        "what it stands for; TLC (PtNames!Clause) checks Faithful, Injective, "
+        "GeneratedAreReserved, ClashRejected, DataHandedBack and value equality with NumPy on "
+        "the real assignment.",
+        "Trusted: TLC, loopy C target. Whether a name lies in the reserved region is a lexical "
+        "fact computed by the harness. Namings are sampled from the enumerated space in the "
+        "quick tier.",
+        "TLC-enumerated adversarial namings with expected verdicts (PtNames) replayed through "
+        "generate_loopy; identifier assignment of the real kernel validated by TLC",
+        "DESIGN.md section 4 C15"),
     "C19": (
         "model_checking",
         "Every index lambda the public API creates for the raisable operations (both operand "
